@@ -89,4 +89,9 @@ def r11(run, tree):
     check_derived_variables(run, tree)
 
 
-RULES = [r1, r2, r3, r4, r5, r6, r7, r8, r9, r11]
+def r_shared_c01_r12(run, tree):
+    run.rule("C01.R12", "every reader finds its files under the resolved output directory (also for nout=-1) and is initialised exactly when selected and present", "D7 folds (shared)", "", floor=1)
+    iof.check_reader_initialize(run, tree)
+
+
+RULES = [r_shared_c01_r12, r1, r2, r3, r4, r5, r6, r7, r8, r9, r11]
